@@ -427,21 +427,17 @@ def _ends_flow_syntactically(st) -> bool:
 
 
 def with_body_exits(c):
-    """statements that FOLLOW a `with` in the same block were deleted, and the body of that with ends the flow as far as
+    """statements that come AFTER a `with` (same block or an enclosing one) were deleted, and the body of that with ends the flow as far as
     core.is_blocking can see (raise / return / continue / break, or `while True:` without a break: the exception that
     really ends it, e.g. StopIteration from next(it), may be swallowed by the context manager; see F16-2)"""
     from collections import Counter
     gone = Counter(ast.dump(n) for n in ast.walk(_p(c["a"])) if isinstance(n, ast.stmt))
     gone.subtract(Counter(ast.dump(n) for n in ast.walk(_p(c["b"])) if isinstance(n, ast.stmt)))
-    for node in ast.walk(_p(c["a"])):
-        for field in ("body", "orelse", "finalbody"):
-            lst = getattr(node, field, None)
-            if not isinstance(lst, list):
-                continue
-            for k, st in enumerate(lst[:-1]):
-                if isinstance(st, ast.With) and any(_ends_flow_syntactically(x) for x in st.body) and any(
-                        gone[ast.dump(x)] > 0 for x in lst[k + 1:]):
-                    return True
+    ta = _p(c["a"])
+    lost = [n for n in ast.walk(ta) if isinstance(n, ast.stmt) and gone[ast.dump(n)] > 0]
+    for w in ast.walk(ta):
+        if isinstance(w, ast.With) and any(_ends_flow_syntactically(x) for x in w.body) and any(n.lineno > w.end_lineno for n in lost):
+            return True
     return False
 
 
